@@ -82,7 +82,9 @@ pub fn stub_copy_from_process(pid: Pid, src: usize, length: usize) -> Result<Vec
 
 /// `std::fmt::format` stub: message text is never the subject.
 pub fn stub_format(_args: core::fmt::Arguments<'_>) -> String {
-    String::new()
+    // an allocated (capacity 1) empty string: dropping a capacity-0 String created here gave
+    // spurious `free` failures inside generate_dump (tool artefact, DESIGN.md 0.5)
+    String::with_capacity(1)
 }
 
 /// Model of `Vec::<u8>::resize(new_len, 0)` without the per-byte `extend_with` loop (measured:
@@ -231,4 +233,10 @@ pub fn stub_process_vm_readv_log(
         local[0][..len].copy_from_slice(&data[..len]);
         Ok(len)
     }
+}
+
+/// `Buffer::with_capacity(n)` with a pre-sized backing store: dump() starts from capacity 0 and
+/// would re-allocate (allocate + copy + free) eight times on the way to a 600-byte image.
+pub fn stub_buffer_with_capacity(cap: usize) -> crate::mem_writer::Buffer {
+    crate::mem_writer::Buffer::verif_with_min_capacity(cap, 1024)
 }
